@@ -527,6 +527,10 @@ def _objs(case):
 
 def run_for_c05(case, caching, times):
     objs = _objs(case)
+    if case.get("incremental") and not case.get("join") and case["tree"][3] is not None:
+        # the evaluate - extend in a later rule_mode(query) session - evaluate workflow: the evaluations AFTER the extension
+        res = run_incremental(case, objs, caching)
+        return [rows for rows, _ in res[1:]], res[-1][1], True
     return run(case, objs, caching, times), expected(case, objs), True
 
 
